@@ -1,6 +1,7 @@
 import Driver.Common
 import Driver.C18
 import Driver.LeakyBucket
+import Driver.Factory
 
 def main (args : List String) : IO UInt32 := do
   match args with
@@ -10,6 +11,7 @@ def main (args : List String) : IO UInt32 := do
     let t ← match model with
       | "c18" => Driver.C18.run ops impl
       | "leakybucket" => Driver.LeakyBucket.run ops impl
+      | "factory" => Driver.Factory.run ops impl
       | _ => do IO.eprintln s!"unknown model {model}"; return 2
     return (if t.diffs == 0 && t.oracleFails == 0 then 0 else 1)
   | _ =>
